@@ -382,9 +382,9 @@ func (p *concPeer) read(out <-chan []byte) {
 		} else {
 			p.log.add(fmt.Sprintf("w%df", m.seq))
 			p.firstSeen[m.seq] = true
-			if m.seq > p.highFirst {
-				p.highFirst = m.seq
-			}
+			// first-time numbers increase within an epoch: a lower one means the sequence was reset, and a
+			// ResendRequest must only name numbers of the current epoch
+			p.highFirst = m.seq
 			if m.kind == "A" {
 				p.logonReset = m.reset
 				p.once1.Do(func() { close(p.logonSeen) })
@@ -541,9 +541,11 @@ func (c *concImpl) round(kv map[string]string) string {
 		return "stalled " + stage
 	}
 	if early {
+		// the Logon (and with it a possible sequence reset) lands when a PRNG-chosen share of the sends has been made
 		startSenders()
-		for i := r.intn(6); i > 0; i-- {
-			pause(r)
+		target := int64(r.intn(senders*per*9/10 + 1))
+		for spin := 0; atomic.LoadInt64(&accepted) < target && spin < 2000000; spin++ {
+			runtime.Gosched()
 		}
 	}
 	// the connection: an initiator sends its Logon as soon as it has one (Connect), an acceptor waits for the peer's
